@@ -176,10 +176,24 @@ pub fn build(
                 if let ("singleton", [grammar::Expr::IntLiteral(value)]) =
                     (ident.as_str(), exprs.as_slice())
                 {
-                    singleton = Some(*value as usize);
+                    singleton = Some((*value).try_into().with_context(|| {
+                        format!(
+                            "failed to convert `singleton` attribute into usize for enum `{resolvee_path}`"
+                        )
+                    })?);
+                } else if ident.as_str() == "singleton" {
+                    anyhow::bail!(
+                        "the `singleton` attribute of enum `{resolvee_path}` takes exactly one integer"
+                    );
                 }
             }
-            grammar::Attribute::Assign(_ident, _expr) => {}
+            grammar::Attribute::Assign(ident, _expr) => {
+                if ident.as_str() == "singleton" {
+                    anyhow::bail!(
+                        "the `singleton` attribute of enum `{resolvee_path}` is written `singleton(<integer>)`"
+                    );
+                }
+            }
         }
     }
 
